@@ -48,8 +48,20 @@ func genC14(tier string, seed uint64, idx int) *simkit.Plan {
 	if rng.Chance(3, 4) && nDel < nBlobs/2+1 {
 		nDel = nBlobs/2 + 1
 	}
+	straddle := replicas > 1 && rng.Chance(1, 4)
+	if straddle {
+		// replicas on different sides of the threshold: most blobs deleted on ONE replica only
+		// (a replica that missed deletes, or was compacted more recently than its peers)
+		nDel = rng.Intn(2) * rng.Intn(2)
+	}
 	for i := 0; i < nDel; i++ {
 		p.Add(simkit.St("del", rng.Uint64(), "i", i))
+	}
+	if straddle {
+		rep := rng.Intn(replicas)
+		for i := nDel; i < nBlobs-rng.Intn(2); i++ {
+			p.Add(simkit.St("del1", rng.Uint64(), "i", i, "replica", rep))
+		}
 	}
 	if replicas > 1 && rng.Chance(1, 3) {
 		// replicas whose garbage differs: a delete that reached one replica only (as after a partially failed delete)
